@@ -481,10 +481,22 @@ package rockredis
 //@   ensures result5 == nil ==> result0.OldHeader != nil && ghost(curtk, db) == tkId(result0.Table, result0.VerKey)
 //@   ensures result5 == nil && !(result0.Expired || result0.OldHeader.UserData == nil) ==> ghost(curexists, db) == 1 && result1 == ghost(curhead, db) && result3 == ghost(curlen, db) && result2 == result1 + result3 - 1 && result3 >= 1 && result1 >= listMinSeq && result2 <= listMaxSeq && smallTK(result0.Table, result0.VerKey)
 //@   ensures result5 != nil || result0.Expired || result0.OldHeader.UserData == nil ==> ghost(curexists, db) == 0
+//@ func (r *RockDB) NewDBRangeIteratorWithOpts(opts engine.IteratorOpts) (*engine.RangeLimitedIterator, error)
+//@   trusted opens an engine iterator (engine contract, C20)
+//@   ensures result1 == nil ==> result0 != nil && fresh(result0) && rliOK(result0)
+// removing a whole list: the meta key is deleted, and the element delete spans exactly the positions head..tail
+// (iterator over the closed range, or DeleteRange [head, tail) plus the tail key)
 //@ func (db *RockDB) lDelete(ts int64, key []byte, wb engine.WriteBatch) int64
-//@   trusted deletes every element and the meta key of the list
-//@   ensures ghost(ldeletes, db) == old(ghost(ldeletes, db)) + 1
-//@   modifies ghost(ldeletes, db), ghost(wbputs, wb), ghost(wbdels, wb), ghost(wbver, wb)
+//@   requires db != nil && db.cfg != nil && wb != nil
+//@   callassert NewDBRangeIteratorWithOpts sameSlice(arg1.Range.Min, startKey) && sameSlice(arg1.Range.Max, stopKey) && arg1.Range.Type == common.RangeClose && !arg1.Reverse && kid(startKey) == lKid(ghost(curtk, db), ghost(curhead, db)) && kid(stopKey) == lKid(ghost(curtk, db), ghost(curhead, db) + ghost(curlen, db) - 1)
+//@   callassert DeleteRange sameSlice(arg1, startKey) && sameSlice(arg2, stopKey) && kid(startKey) == lKid(ghost(curtk, db), ghost(curhead, db)) && kid(stopKey) == lKid(ghost(curtk, db), ghost(curhead, db) + ghost(curlen, db) - 1)
+//@   ensures ghost(curexists, db) == 1 ==> (result == ghost(curlen, db) || result == 0) && ghost(wbdels, wb) >= old(ghost(wbdels, wb)) + 1
+//@   ensures ghost(curexists, db) == 1 && result != 0 && db.cfg.ExpirationPolicy != common.WaitCompact ==> bst(wb, ghost(wbver, wb), lKid(ghost(curtk, db), ghost(curhead, db) + ghost(curlen, db) - 1)) == 2
+//@   ensures ghost(curexists, db) == 0 ==> result == 0 && ghost(wbver, wb) == old(ghost(wbver, wb))
+//@   ghostset ghost(ldeletes, db) := old(ghost(ldeletes, db)) + 1
+//@   modifies ghost(ldeletes, db), ghost(wbputs, wb), ghost(wbdels, wb), ghost(wbver, wb), ghost(tblcnt, db), ghost(pos, _)
+//@ loop 1
+//@   invariant rit != nil && fresh(rit) && rliOK(rit) && ghost(wbdels, wb) >= old(ghost(wbdels, wb)) + 1 && ghost(curexists, db) == 1 && size == ghost(curlen, db)
 // ghost(commits, e) counts engine writes; ghost(cputs/cdels, e) are the batch counters handed to the last write
 //@ interface (github.com/youzan/ZanRedisDB/engine.KVEngine).Write func(e engine.KVEngine, wb engine.WriteBatch) error
 //@   ensures result != errTooMuchBatchSize
@@ -513,13 +525,13 @@ package rockredis
 //@ spec ltE(llen int64, stop int64) int64 = min(ite(stop < 0, llen + stop, stop), llen - 1)
 //@ spec ltEmpty(llen int64, start int64, stop int64) bool = ltS(llen, start) >= llen || ltS(llen, start) > ite(stop < 0, llen + stop, stop)
 //@ func (db *RockDB) ltrim2(ts int64, key []byte, startP, stopP int64) error
-//@   requires db != nil && db.wb != nil && ghost(wbputs, db.wb) == 0 && ghost(wbdels, db.wb) == 0 && startP > -4611686018427387904 && startP < 4611686018427387904 && stopP > -4611686018427387904 && stopP < 4611686018427387904
+//@   requires db != nil && db.cfg != nil && db.wb != nil && ghost(wbputs, db.wb) == 0 && ghost(wbdels, db.wb) == 0 && startP > -4611686018427387904 && startP < 4611686018427387904 && stopP > -4611686018427387904 && stopP < 4611686018427387904
 //@   ensures result == nil && ghost(curexists, db) == 1 && ltEmpty(ghost(curlen, db), startP, stopP) ==> ghost(ldeletes, db) == old(ghost(ldeletes, db)) + 1 && ghost(lmsets, db) == old(ghost(lmsets, db))
 //@   ensures result == nil && ghost(curexists, db) == 1 && !ltEmpty(ghost(curlen, db), startP, stopP) ==> ghost(ldeletes, db) == old(ghost(ldeletes, db)) && ghost(lmsets, db) == old(ghost(lmsets, db)) + 1 && ghost(lmhead, db) == ghost(curhead, db) + ltS(ghost(curlen, db), startP) && ghost(lmtail, db) == ghost(curhead, db) + ltE(ghost(curlen, db), stopP)
 //@   ensures result == nil && ghost(curexists, db) == 1 ==> ghost(commits, db.rockEng) == old(ghost(commits, db.rockEng)) + 1
 //@   ensures ghost(wbputs, db.wb) == 0 && ghost(wbdels, db.wb) == 0
 //@   ensures ghost(curexists, db) == 1 && 1 <= len(key) && len(key) <= MaxKeySize && result != nil ==> ghost(commits, db.rockEng) == old(ghost(commits, db.rockEng)) + 1
-//@   modifies ghost(wbputs, _), ghost(wbdels, _), ghost(lmhead, db), ghost(lmtail, db), ghost(lmsets, db), ghost(ldeletes, db), ghost(commits, _), ghost(cputs, _), ghost(cdels, _), ghost(tblcnt, db), ghost(expdels, _), ghost(wbver, _), ghost(cver, _), ghost(werrs, _)
+//@   modifies ghost(wbputs, _), ghost(wbdels, _), ghost(lmhead, db), ghost(lmtail, db), ghost(lmsets, db), ghost(ldeletes, db), ghost(commits, _), ghost(cputs, _), ghost(cdels, _), ghost(tblcnt, db), ghost(expdels, _), ghost(wbver, _), ghost(cver, _), ghost(werrs, _), ghost(pos, _)
 //@   loop 1
 //@   invariant 0 <= i && i <= start
 //@   loop 2
